@@ -8,7 +8,10 @@ import sys
 from vlib import runner, peg, gens, gens_rich, sut, shrink, diff
 from vlib.runner import Check, Result, h64
 
-PY = 'LOG = []\ndef note(rule, restlen):\n    LOG.append((rule, restlen))\n    return None\ndef same(pair):\n    return [pair[0] is pair[1], pair[1]]'
+PY = ('LOG = []\ndef note(rule, restlen):\n    LOG.append((rule, restlen))\n    return None\ndef same(pair):\n    return [pair[0] is pair[1], pair[1]]\n'
+      # a parse started from inline Python in the middle of another one (with a log of its own)
+      'def nested(name, text):\n    global LOG\n    saved = LOG\n    LOG = []\n    try:\n        globals()[name].parse(text)\n'
+      '    except Exception:\n        pass\n    finally:\n        LOG = saved\n    return None')
 
 
 def instrument(g):
@@ -170,6 +173,13 @@ class C07(Check):
             wr = ('call', 'Wrap', [('ref', 'R0')], [])
             rules.append(('rule', 'ViaTemplate', None, ('choice', [('seq', [wr, ('lit', '!')]), ('seq', [wr, ('lit', '?')]),
                                                                    ('seq', [('expect', wr), ('ref', 'R0'), ('opt', ('call', 'Wrap', [], [('x', ('ref', 'R0'))]))])])))
+            # "within one parse call": a nested parse call (made by inline Python) is another call; the outer one
+            # still knows what it has evaluated when the inner one returns
+            ntext = b'ab' if g.mode == 'bytes' else 'ab'
+            inner = ('apply', ('lit', ''), ('py', 'lambda v: nested("R1", %r)' % (ntext,)))
+            rules.append(('rule', 'Nest', None, ('choice', [('seq', [('ref', 'R0'), inner, ('lit', '!')]),
+                                                            ('seq', [('ref', 'R0'), ('opt', ('ref', 'R1')), inner, ('lit', '?')]),
+                                                            ('seq', [('ref', 'R0'), ('opt', ('ref', 'R1'))])])))
             rules.append(('rule', 'start', None, ('choice', [('seq', [('ref', 'R0'), ('ref', 'R1'), ('lit', 'Z')]),
                                                              ('seq', [('ref', 'R0'), ('ref', 'R1'), ('opt', ('ref', 'R2'))])])))
             g2 = g.copy(rules=rules)
@@ -195,7 +205,7 @@ class C07(Check):
                 return
             res.hist['grammars'] += 1
             pg = {'same': lambda pair: [True, pair[1]]}
-            for name in ('start', 'Alt', 'ViaAlias', 'ViaTemplate', 'TwiceL', 'TwiceK', 'R0'):
+            for name in ('start', 'Alt', 'ViaAlias', 'ViaTemplate', 'Nest', 'TwiceL', 'TwiceK', 'R0'):
                 hang = False
                 for t in inputs:
                     bad, got, raw = self.run_one(res, g2, gi, mod, name, t, 'hyp', exclude)
